@@ -119,7 +119,7 @@ Proof.
   { eexists. eexists. vm_compute. reflexivity. }
   destruct Ho as (m & lam & Ho). exists m, lam, w_spec.
   split; [|split; [exact Ho|split]].
-  - unfold physical; simpl. rewrite Q2R_1, Q2R_0. unfold Q2R; simpl. lra.
+  - unfold physical; simpl. rewrite <- Q2R_0. repeat split; apply Qle_bool_R; reflexivity.
   - pose proof (sign_of_sound w_spec) as S.
     assert (Es : sign_of w_spec = SPos) by (vm_compute; reflexivity). rewrite Es in S. exact S.
   - pose proof (sign_of_sound (ESub w_a (EMul (c (149 # 100)) w_spec))) as S.
@@ -137,6 +137,6 @@ Theorem small_branch_raises_refuted :
   exists r amass mass env t, physical mass env t /\ activity_row r amass mass env t = ORaise TypeErr.
 Proof.
   exists w2_row, 13%Z, 1%Q, (mkEnv 4000000000000000 0 0), (1 # 1000)%Q. split.
-  - unfold physical; simpl. rewrite Q2R_1, Q2R_0. unfold Q2R; simpl. lra.
+  - unfold physical; simpl. rewrite <- Q2R_0. repeat split; apply Qle_bool_R; reflexivity.
   - vm_compute. reflexivity.
 Qed.
